@@ -48,6 +48,12 @@ func (fr *Frame) callValue(in ssa.CallInstruction, c *ssa.CallCommon, fv Val, ar
 					cenv.vars[n] = tv
 				}
 			}
+			// the call's arguments are visible as arg0, arg1, ... (receiver first)
+			for i, a := range c.Args {
+				if i < len(args) {
+					cenv.vars[fmt.Sprintf("arg%d", i)] = TV{V: args[i], T: a.Type()}
+				}
+			}
 			for _, cl := range cls {
 				g := fr.evalClause(cenv, cl)
 				ex.addOblig("assert@", site+":"+cl.Label, ex.prog.pos(in.Pos()), mkImp(fr.cur, g), cl.Src)
